@@ -3,7 +3,9 @@
 //! (parameters, block-, branch-, arm- and loop-local variables, case bindings; a function-valued
 //! definition is visible in its own body, any other local only after its definition), then module globals.
 use crate::ast::*;
+use crate::print::{STD_NAMES, SYLT_KEYWORDS};
 use std::collections::HashMap;
+use vcore::Tape;
 
 struct R<'a> {
     p: &'a Program,
@@ -252,3 +254,40 @@ pub fn renamable(p: &Program) -> Vec<VarId> {
         .filter(|v| used[*v as usize] && p.var(*v).kind != VarKind::SelfVar && p.var(*v).name != "start")
         .collect()
 }
+
+/// maximal legal shadowing, greedily: every binder tries to take the name of another binder
+pub fn shadow_plan(t: &mut Tape, p: &Program) -> (Vec<String>, usize) {
+    let mut names: Vec<String> = p.vars.iter().map(|v| v.name.clone()).collect();
+    let ren = renamable(p);
+    if ren.is_empty() {
+        return (names, 0);
+    }
+    let mut renamed = 0;
+    // a few fresh-but-odd names as well
+    let extra = ["x", "i", "tmp", "value", "a1", "_q", "n"];
+    let rounds = ren.len() * 2;
+    for _ in 0..rounds {
+        let b = *t.pick(&ren);
+        let cand: String = if t.chance(1, 6) {
+            extra[t.below(extra.len())].to_string()
+        } else {
+            let o = *t.pick(&ren);
+            if o == b {
+                continue;
+            }
+            names[o as usize].clone()
+        };
+        if cand == names[b as usize] || SYLT_KEYWORDS.contains(&cand.as_str()) || STD_NAMES.contains(&cand.as_str()) {
+            continue;
+        }
+        // type / variant names start with an upper-case letter, case captures with a lower-case one
+        let old = std::mem::replace(&mut names[b as usize], cand);
+        if check(p, &names).ok {
+            renamed += 1;
+        } else {
+            names[b as usize] = old;
+        }
+    }
+    (names, renamed)
+}
+
